@@ -127,6 +127,11 @@ pub fn check_std_path(p: &RStdPath, mon: &mut Mon) {
         if !guards_intact(&buf, n) {
             mon.violation("guard-bytes-changed:StandardPathView::try_reverse", "bytes outside the view were written", case_json(p, &bytes));
         }
+        let view_result: Option<bool> = match &r {
+            Ok(Ok(())) => Some(true),
+            Ok(Err(_)) => Some(false),
+            Err(_) => None,
+        };
         match r {
             Err(pn) => mon.violation(format!("panic:StandardPathView::try_reverse:{}", pn.site()), pn.0, case_json(p, &bytes)),
             Ok(Err(e)) => {
@@ -171,6 +176,39 @@ pub fn check_std_path(p: &RStdPath, mon: &mut Mon) {
         match m0 {
             Err(pn) => mon.violation(format!("panic:StandardPathView::to_model:{}", pn.site()), pn.0, case_json(p, &bytes)),
             Ok(model) => {
+                // Agreement domain of the property: every model the encoder accepts (at every
+                // current-hop / current-info position, also inconsistent ones) and its encoding.
+                let in_domain = matches!(catch(|| model.try_encode_to_vec()), Ok(Ok(ref e)) if *e == bytes);
+                if in_domain {
+                    mon.count("agreement_domain_cases");
+                    let mut mm = model.clone();
+                    if let (Ok(mres), Some(vres)) = (catch(|| mm.try_reverse().is_ok()), view_result) {
+                        if mres != vres {
+                            mon.violation("view-model-disagree:try_reverse-result", format!("view try_reverse ok={vres}, model try_reverse ok={mres}"), case_json(p, &bytes));
+                        } else if mres {
+                            match catch(|| mm.try_encode_to_vec()) {
+                                Ok(Ok(enc)) => {
+                                    if enc != after {
+                                        mon.violation(
+                                            "view-model-disagree:try_reverse",
+                                            format!("view reversal gives meta {}, encode(model reversal) gives meta {}", hex(&after[..4]), hex(&enc[..4])),
+                                            case_json(p, &bytes),
+                                        );
+                                    }
+                                    // reversal is its own inverse on the whole domain
+                                    let mut twice = after.clone();
+                                    let r2 = catch(|| StandardPathView::try_from_mut_slice(&mut twice).expect("same size").0.try_reverse().is_ok());
+                                    if !matches!(r2, Ok(true)) || twice != bytes {
+                                        mon.violation("not-involutive:StandardPathView::try_reverse", "reverse(reverse(p)) != p on an encoder-accepted path", case_json(p, &bytes));
+                                    }
+                                }
+                                // reversed pointer not representable (paths with > 64 hop fields)
+                                Ok(Err(_)) => mon.count("reversed_model_unencodable"),
+                                Err(pn) => mon.violation(format!("panic:StandardPath::try_encode_to_vec:{}", pn.site()), pn.0, case_json(p, &bytes)),
+                            }
+                        }
+                    }
+                }
                 let mut m = model.clone();
                 match catch(|| m.try_reverse()) {
                     Err(pn) => mon.violation(format!("panic:StandardPath::try_reverse:{}", pn.site()), pn.0, case_json(p, &bytes)),
@@ -459,6 +497,7 @@ pub fn run(args: &Args, mon: &mut Mon) -> (String, Vec<&'static str>) {
     mon.floor("reverse_ok", 100);
     mon.floor("reverse_err", 100);
     mon.floor("onehop_cases", 100);
+    mon.floor("agreement_domain_cases", 100);
 
     if let Some(path) = &args.replay {
         let v: serde_json::Value = serde_json::from_str(&std::fs::read_to_string(path).expect("replay")).unwrap();
